@@ -300,7 +300,7 @@ func ErrCheck(c *core.Ctx, g *cfgq.Graph, info *types.Info, body ast.Node, call 
 // errFlow follows the error held by errObj from the assignment as: it must be tested on every path (directly, in a
 // condition carried by a boolean local, after being forwarded through a converter `x, err = conv(reply, err)` or
 // copied into another error variable), and every edge that establishes "non-nil" must end in a failure exit.
-func errFlow(c *core.Ctx, g *cfgq.Graph, info *types.Info, body ast.Node, as *ast.AssignStmt, errObj types.Object, name string, spec ErrSpec, depth int) bool {
+func errFlow(c *core.Ctx, g *cfgq.Graph, info *types.Info, body ast.Node, as ast.Node, errObj types.Object, name string, spec ErrSpec, depth int) bool {
 	fail := func(pos token.Pos, w []string, format string, a ...interface{}) bool {
 		c.Check(spec.Rule, spec.Key, pos, false, fmt.Sprintf(format, a...)+": "+spec.Consequence, w...)
 		return false
@@ -332,7 +332,7 @@ func errFlow(c *core.Ctx, g *cfgq.Graph, info *types.Info, body ast.Node, as *as
 	var forwards []*ast.CallExpr
 	isForward := func(n ast.Node) bool {
 		x, ok := n.(*ast.AssignStmt)
-		if !ok || x == as || len(x.Rhs) != 1 {
+		if !ok || ast.Node(x) == as || len(x.Rhs) != 1 {
 			return false
 		}
 		fc, ok := ast.Unparen(x.Rhs[0]).(*ast.CallExpr)
@@ -347,26 +347,47 @@ func errFlow(c *core.Ctx, g *cfgq.Graph, info *types.Info, body ast.Node, as *as
 	}
 	// copies: `err2 := err`, `reply, err := r.reply, r.err`
 	type copySite struct {
-		as  *ast.AssignStmt
+		as  ast.Node
 		obj types.Object
 	}
 	var copies []copySite
 	isCopy := func(n ast.Node) bool {
-		x, ok := n.(*ast.AssignStmt)
-		if !ok || x == as || len(x.Lhs) != len(x.Rhs) {
+		if n == as {
 			return false
 		}
-		for i, r := range x.Rhs {
+		var lhs []types.Object
+		var rhs []ast.Expr
+		switch x := n.(type) {
+		case *ast.AssignStmt:
+			if len(x.Lhs) != len(x.Rhs) {
+				return false
+			}
+			for _, l := range x.Lhs {
+				lhs = append(lhs, Obj(info, l))
+			}
+			rhs = x.Rhs
+		case *ast.ValueSpec: // `var err2 error = err`
+			if len(x.Names) != len(x.Values) {
+				return false
+			}
+			for _, nm := range x.Names {
+				lhs = append(lhs, info.Defs[nm])
+			}
+			rhs = x.Values
+		default:
+			return false
+		}
+		for i, r := range rhs {
 			if Obj(info, r) != errObj {
 				continue
 			}
-			lo := Obj(info, x.Lhs[i])
+			lo := lhs[i]
 			if lo == nil || lo == errObj || !cfgq.IsErrorType(lo.Type()) {
 				continue
 			}
-			if !spec.seen[x] {
-				spec.seen[x] = true
-				copies = append(copies, copySite{x, lo})
+			if !spec.seen[n] {
+				spec.seen[n] = true
+				copies = append(copies, copySite{n, lo})
 			}
 			return true
 		}
@@ -375,7 +396,7 @@ func errFlow(c *core.Ctx, g *cfgq.Graph, info *types.Info, body ast.Node, as *as
 	// another use of the error whose effect is not followed: handed to a function, stored, returned. A comparison
 	// (`err == io.EOF`) is fully understood - it is not a test against nil and it does nothing with the error.
 	mentions := func(n ast.Node) bool {
-		if n == ast.Node(as) {
+		if n == as {
 			return false
 		}
 		found := false
@@ -456,7 +477,8 @@ func errFlow(c *core.Ctx, g *cfgq.Graph, info *types.Info, body ast.Node, as *as
 				continue
 			}
 			tested++
-			w := g.Path(cfgq.Query{From: cfgq.Point{B: b.Succs[s]}, Avoid: failure, Target: IsNode(as), TargetExit: NormalExit})
+			// a copy of the error into another variable hands the obligation over to that variable (checked below)
+			w := g.Path(cfgq.Query{From: cfgq.Point{B: b.Succs[s]}, Avoid: cfgq.Or(failure, isCopy), Target: IsNode(as), TargetExit: NormalExit})
 			if w != nil {
 				return fail(cfgq.CondOf(b).Pos(), w, "after %s failed (error non-nil) execution continues without a failure exit (no-return logger, error return, recorded worker error)", name)
 			}
